@@ -27,7 +27,7 @@ def _edges_json(flow, order):
     return [[u, v, flow[(u, v)]] for (u, v) in order if (u, v) in flow]
 
 
-def dag_layered(rng, max_nodes=7, max_edges=10, max_routes=4, wmax=9, float_w=False):
+def dag_layered(rng, max_nodes=7, max_edges=10, max_routes=4, wmax=9, float_w=False, zero_edge_p=0.12):
     """Random DAG; flow = superposition of <= max_routes source-to-sink paths."""
     n = rng.randint(3, max_nodes)
     ns = names(rng, n)
@@ -72,7 +72,16 @@ def dag_layered(rng, max_nodes=7, max_edges=10, max_routes=4, wmax=9, float_w=Fa
     weights = [_w(rng, wmax, float_w) for _ in routes]
     flow = _flow_from_routes(routes, weights)
     order = [e for e in order if e in flow]
-    return {"kind": "dag", "nodes": [x for x in ns if any(x in e for e in order)],
+    used = [x for x in ns if any(x in e for e in order)]
+    if zero_edge_p and rng.random() < zero_edge_p and len(used) >= 3:
+        # an edge no route uses (flow 0), forward in the topological order, between two inner nodes
+        cands = [(used[i], used[j]) for i in range(len(used)) for j in range(i + 1, len(used))
+                 if (used[i], used[j]) not in flow and used[i] in succ and used[j] in pred]   # no source/sink changes its role
+        if cands:
+            e = rng.choice(cands)
+            order.append(e)
+            flow[e] = 0
+    return {"kind": "dag", "nodes": used,
             "edges": _edges_json(flow, order), "routes": routes, "weights": weights}
 
 
